@@ -702,8 +702,7 @@ impl<'r> Grammar<'r> {
                 self.expr(depth + 1, 2);
             } else {
                 self.t(":");
-                let ty = self.rng.pick(TYPES).to_string();
-                self.t(&ty);
+                self.inline_type();
             }
             if self.rng.chance(1, 5) {
                 // portability directive on the declaration
@@ -719,6 +718,36 @@ impl<'r> Grammar<'r> {
                 }
             }
             self.t(";");
+        }
+    }
+
+    /// the type of a variable or field: mostly a type name, sometimes a type written in place
+    fn inline_type(&mut self) {
+        match self.rng.below(12) {
+            0 => {
+                self.k("class");
+                self.k("of");
+                self.t("TObject");
+            }
+            1 => {
+                self.k("array");
+                self.k("of");
+                let ty = self.rng.pick(TYPES).to_string();
+                self.t(&ty);
+            }
+            2 => {
+                self.k("set");
+                self.k("of");
+                self.t("Byte");
+            }
+            3 => {
+                self.t("^");
+                self.t("TFoo");
+            }
+            _ => {
+                let ty = self.rng.pick(TYPES).to_string();
+                self.t(&ty);
+            }
         }
     }
 
@@ -929,9 +958,35 @@ impl<'r> Grammar<'r> {
                         let i = self.ident();
                         self.tm(&i, Mark::Start(depth + 2));
                         self.t(":");
-                        let ty = self.rng.pick(TYPES).to_string();
-                        self.t(&ty);
+                        self.inline_type();
                         self.t(";");
+                    }
+                    if self.rng.chance(1, 3) {
+                        // variant part: `case` stands at the level of the record's line, the arms one deeper
+                        self.km("case", Mark::Closer(depth + 1));
+                        if self.rng.chance(1, 2) {
+                            self.t("Tag");
+                            self.t(":");
+                        }
+                        self.t("Boolean");
+                        self.k("of");
+                        for (label, nf) in [("True", self.rng.range(1, 3)), ("False", self.rng.range(0, 2))] {
+                            self.tm(label, Mark::Start(depth + 2));
+                            self.t(":");
+                            self.t("(");
+                            for f in 0..nf {
+                                if f > 0 {
+                                    self.t(";");
+                                }
+                                let i = format!("V{}{}", label.chars().next().unwrap(), f);
+                                self.t(&i);
+                                self.t(":");
+                                let ty = self.rng.pick(TYPES).to_string();
+                                self.t(&ty);
+                            }
+                            self.t(")");
+                            self.t(";");
+                        }
                     }
                     self.km("end", Mark::Closer(depth + 1));
                 }
